@@ -17,12 +17,18 @@ def graph_circuit_gates(code, n):
     return g
 
 
-def member(label, n, rnd, members=None, plain_graph=False):
+STYLES = ("random", "random", "random", "uniform", "pauli-frame", "all-minus", "random", "one-odd")
+
+
+def member(label, n, rnd, members=None, plain_graph=False, style="random"):
     """A random signed stabilizer of the LC class `label`.
 
     Returns dict: gens (random generating set of the signed group), circuit (gate list preparing
     exactly that signed state, synthesised by the oracle), code (graph the state was derived from),
     local (the single-qubit gates applied), graph_state (True when it is the +graph state itself).
+    style: "random" (independent local Clifford out of 24 per qubit), "uniform" (the same local Clifford on
+    every qubit), "one-odd" (uniform except one qubit), "pauli-frame" (only Paulis: a graph state with
+    signs), "all-minus" (every canonical graph generator negative before the local layer).
     """
     members = members or lcorbit.orbit_members(n)[label]
     code = rnd.choice(members)
@@ -30,12 +36,24 @@ def member(label, n, rnd, members=None, plain_graph=False):
     if plain_graph:
         gens = lcorbit.graph_gens(code, n)
         return {"gens": gens, "circuit": circ, "code": code, "local": [], "graph_state": True, "n": n}
-    flips = [("z", (q,)) for q in range(n) if rnd.getrandbits(1)]
-    local = [(nm, (q,)) for q in range(n) for nm in lcorbit.LC24[rnd.randrange(24)]]
+    if style == "all-minus":
+        flips = [("z", (q,)) for q in range(n)]
+    else:
+        flips = [("z", (q,)) for q in range(n) if rnd.getrandbits(1)]
+    if style in ("uniform", "one-odd"):
+        c = rnd.randrange(24)
+        picks = [c] * n
+        if style == "one-odd":
+            picks[rnd.randrange(n)] = rnd.randrange(24)
+    elif style == "pauli-frame":
+        picks = [rnd.randrange(4) for _ in range(n)]          # LC24[0..3] = identity class followed by I, X, Y, Z
+    else:
+        picks = [rnd.randrange(24) for _ in range(n)]
+    local = [(nm, (q,)) for q in range(n) for nm in lcorbit.LC24[picks[q]]]
     circ = circ + flips + local
     gens = state_of(circ, n)
     gens = groups.random_presentation(gens, n, rnd)
-    return {"gens": gens, "circuit": circ, "code": code, "local": local, "graph_state": False, "n": n}
+    return {"gens": gens, "circuit": circ, "code": code, "local": local, "graph_state": False, "n": n, "style": style}
 
 
 def hostile_presentation(gens, n, rnd, kind):
